@@ -38,6 +38,24 @@ MISSED_FIRST = {
  "C05-m6": "a stale-state change (replacing a species no longer notifies): C05 builds a fresh plasma per case and does not see it; caught by C01, whose property it breaks",
  "C17-m5": "missed while non-constant emissivity was sampled on convex or clockwise mesh voxels only; caught after concave x anti-clockwise x mesh cases were generated",
  "C17-m6": "missed while cross-sections were centimetre to metre sized; caught after the scale class (1e-8 .. 1e3 m) with conditioned tolerances",
+ "C02-m9": "missed while constructor arguments were fresh lists; caught after caller-owned containers (C-contiguous float64 arrays, views) mutated after construction",
+ "C03-m7": "missed while one model instance was alive per case; caught after the several-models-alive-at-once class (interleaved evaluation, default helper objects)",
+ "C08-m8": "missed while only install_adfXX was driven; caught after install_files / populate-style entry points with read-back",
+ "C08-m9": "missed while each repository saw one install; caught after install sequences (download cache vs adas_path, revised content)",
+ "C09-m7": "missed while the equilibrium-mapped entry points were judged at the profile nodes only; caught after off-node range / agreement monitors (the same monitor exposed the defect repaired in 15eeb84)",
+ "C09-m8": "missed while arrays were 1-D or C-ordered; caught after N-d arrays in Fortran / transposed / strided / broadcast layouts",
+ "C10-m9": "missed while returned matrices were read once; caught after the returned-array aliasing and masked re-observation monitors",
+ "C10-m10": "missed while maps were handed over in dtypes that force a copy; caught after caller-owned arrays in the exact internal format mutated afterwards",
+ "C12-m8": "missed while 3-D points were built as (r cos phi, r sin phi); caught after exact special points (y = +-0 with x < 0, half-axes, diagonals, subnormals)",
+ "C13-m7": "missed while hypot-type wrappers were judged in one common magnitude window; caught after per-clause windows (rotation judged over the whole finite range)",
+ "C13-m8": "missed while each sampler was called once; caught after sampler call histories with caller-modified results",
+ "C15-m7": "missed while rejected operations were judged on the target group only; caught after the rejected-operation monitor on all groups involved (which exposed two defects, repaired in cd1a432 and e2f4b9d)",
+ "C16-m8": "missed while calibration containers were not touched after assignment; caught after caller-owned container mutations (which exposed the defect repaired in 58ffb74)",
+ "C17-m9": "missed while every voxel was sampled in isolation; caught after call sequences over voxels with mixed vertex counts and per-triangle hit counts",
+ "C17-m11": "missed while only the voxel-level sampler saw non-linear functions; caught after grid-level emissivities with grid_samples in {1, 2, 10, 37}",
+ "C18-m7": "missed while probe points changed between calls; caught after the same-argument-first-call probe pattern",
+ "C20-m7": "missed while vertices were always listed from the top-right corner clockwise; caught after vertex-listing classes (which exposed the defect repaired in 45772da)",
+ "C20-m9": "missed while grids had at most 196 cells; caught after grids with more than 1024 cells",
  "C18-m3": "first missed by C18 (its histories act on profile / spectrum objects, not on re-attaching them to the Laser node); caught by C01 after same-object re-assignment mutators and the laser-geometry observable were added, and by C18 itself after the placement monitor",
 }
 rows = []
